@@ -34,8 +34,10 @@ OBLIGATIONS = [
     (P + "authenticity_hmac", "under Unforgeable (ideal MAC, hypothesis): accept => (d,t) was saved earlier with this key"),
     (P + "authenticity_aes", "under Unforgeable: accept => (d,t) was saved earlier with this key material (any IVs)"),
     (P + "wrong_key_or_algo", "under Unforgeable: a cookie whose cipher text was not MAC'ed under this key/algorithm is rejected and cleared"),
-    (P + "iv_fresh_per_object", "bookkeeping for confidentiality (PARTIAL): IVs come from the entropy source at load(); block 0 of the CBC plaintext is a dummy; decrypt does not depend on the IV"),
-    (P + "config_refusals", "session_pool::init refuses cbc without hmac and no method; every accepted hmac configuration has a key of >= 16 bytes; every accepted configuration has a MAC"),
+    (P + "rejects_cleanly_hmac", "end to end (hmac): for EVERY cookie string: no UB, rejection clears, success does not"),
+    (P + "rejects_cleanly_aes", "end to end (aes): for EVERY cookie string and IV state: no UB, rejection clears, success does not"),
+    (P + "confidentiality_partial", "bookkeeping for confidentiality (PARTIAL; a.k.a. iv_fresh_per_object): IVs come from the entropy source at load(), once per object; block 0 of the CBC plaintext is a dummy; decrypt does not depend on the IV"),
+    (P + "config_refusals", "session_pool::init refuses cbc without hmac, no method, mixed styles; every accepted signature-only configuration has a key of >= 16 bytes"),
 ]
 
 ALPH = b"ABCDEFGHIJKLMNOPQRSTUVWXYZabcdefghijklmnopqrstuvwxyz0123456789-_"
